@@ -40,7 +40,8 @@ type c11world struct {
 	clean  func()
 	cbMu   sync.Mutex
 	cbs    [][]string // callbacks since last drain: id, before, after
-	nextID int32
+	nextID  int32
+	lastGen string
 }
 
 func (w *c11world) abs(v interface{}) string {
@@ -100,7 +101,12 @@ func newC11World(cfg c11cfg) (*c11world, error) {
 	} else {
 		ms := mockstore.NewStore()
 		if cfg.genids {
-			ms.NewID = func() string { return fmt.Sprintf("gen%d", atomic.AddInt32(&w.nextID, 1)) }
+			// generated ids come from a small space and may collide with existing resources
+			ms.NewID = func() string {
+				n := atomic.AddInt32(&w.nextID, 1)
+				w.lastGen = []string{"a", "g1", "b", "g2", "c"}[int(n)%5]
+				return w.lastGen
+			}
 		}
 		w.st = ms
 		w.clean = func() {}
@@ -136,7 +142,8 @@ func errClass(err error) string {
 
 // call performs one store call inside txn and returns its record.
 func (w *c11world) call(txn store.ReadTxn, op, id, v string) rec {
-	r := rec{"op": op, "id": id, "v": v, "res": "ok", "val": "NONE"}
+	r := rec{"op": op, "id": id, "v": v, "res": "ok", "val": "NONE", "gen": ""}
+	w.lastGen = ""
 	if v == "NIL" || v == "WRONG" {
 		r["v"] = "WRONG" // both are values of the wrong type
 	}
@@ -165,9 +172,7 @@ func (w *c11world) call(txn store.ReadTxn, op, id, v string) rec {
 		r["dbg"] = fmt.Sprint(pv)
 	}
 	r["cbs"] = w.drainCbs()
-	if cbs := r["cbs"].([][]string); id == "" && op == "create" && r["res"] == "ok" && len(cbs) > 0 && w.cfg.genids {
-		r["id"] = cbs[0][0] // the id the store generated
-	}
+	r["gen"] = w.lastGen // the id the store generated for this call, if any
 	if v == "NIL" {
 		r["dbg"] = fmt.Sprint(r["dbg"], " (nil value)")
 	}
@@ -186,7 +191,7 @@ func seqHistory(cfg c11cfg, rng *rand.Rand, n int) (rec, error) {
 	calls := []rec{}
 	for len(calls) < n {
 		id := c11ids[rng.Intn(len(c11ids))]
-		if rng.Intn(12) == 0 {
+		if rng.Intn(12) == 0 || (cfg.genids && rng.Intn(3) == 0) {
 			id = ""
 		}
 		if rng.Intn(3) == 0 {
@@ -216,6 +221,7 @@ func seqHistory(cfg c11cfg, rng *rand.Rand, n int) (rec, error) {
 				// the store generated an id: the rest of this transaction is about that id - not followed here
 				break
 			}
+			// after a FAILED create on the empty id the transaction still has no id: keep going
 		}
 		t.Close()
 	}
@@ -267,7 +273,7 @@ func concHistory(cfg c11cfg, seed int64, procs, txns int) (rec, error) {
 							v = fmt.Sprintf("p%dk%dj%d", p, k, j)
 						}
 					}
-					c := rec{"op": op, "id": id, "v": v, "res": "ok", "val": "NONE", "cbs": [][]string{}}
+					c := rec{"op": op, "id": id, "v": v, "res": "ok", "val": "NONE", "gen": "", "cbs": [][]string{}}
 					switch op {
 					case "create":
 						c["res"] = errClass(t.(store.WriteTxn).Create(w.conc(v)))
